@@ -19,8 +19,10 @@ def check(pid, category, text, note, technique, design_ref, thorough=True):
         "technique": technique,
     }
 
+# Only checks the coordinator has reviewed and seen pass on the unchanged tree are claimed: lib/enabled.txt lists them.
+ENABLED = set(open(os.path.join(ROOT, "lib", "enabled.txt")).read().split())
 for _f in sorted(os.listdir(os.path.join(ROOT, "lib", "manifest.d"))):
-    if _f.endswith(".py"):
+    if _f.endswith(".py") and _f[:-3] in ENABLED:
         exec(open(os.path.join(ROOT, "lib", "manifest.d", _f)).read())
 
 props = [json.loads(l)["id"] for l in open(os.path.join(ROOT, "properties.jsonl"))]
